@@ -67,11 +67,21 @@ m("c01-xba-flags", "emulator/cpu65c816/cpu.go", "\t\tcpu.RA = newh | newl\n\t\tc
 m("c01-decimal-carry", "emulator/cpu65c816/cpu.go", "\t\tif r > 0x9 {\n\t\t\tr += 0x6\n\t\t}", "\t\tif r > 0x9 && n < 3 {\n\t\t\tr += 0x6\n\t\t}", ["C01"])
 m("c02-cycle-table-alt", "emulator/cpualt/cpu_tables.go", "var decCycles_flagM = [256]byte{\n\t0, 1, 0, 1, 2, 1, 2, 1,", "var decCycles_flagM = [256]byte{\n\t0, 1, 0, 1, 2, 1, 1, 1,", ["C02"])
 m("c02-alt-mask-dropped", "emulator/cpualt/bus.go", "func (b *Bus) eaRead16_cross(ea uint32) uint16 {\n\tll := b.Read[ea>>4](ea)\n\tea = (ea + 1) & 0x00ffffff // wrap on 24bits", "func (b *Bus) eaRead16_cross(ea uint32) uint16 {\n\tll := b.Read[ea>>4](ea)\n\tea = (ea + 1) & 0x00fffffe // wrap on 24bits", ["C02"])
-m("c02-alt-stopped", "emulator/cpualt/cpu.go", "func (cpu *CPU) op_stp() {\n\tcpu.Stopped = true", "func (cpu *CPU) op_stp() {\n\tcpu.Stopped = cpu.E == 0", ["C02"])
+m("c02-alt-stopped", "emulator/cpualt/cpu.go", "func (cpu *CPU) stp() {\n\tcpu.Stopped = true", "func (cpu *CPU) stp() {\n\tcpu.Stopped = cpu.E == 0", ["C02"])
 m("c02-emu-stack-alt", "emulator/cpualt/cpu.go", "\tcpu.SP--\n\n\tif cpu.E == 1 {\n\t\tcpu.SP = cpu.SP & 0x00FF\n\t\tcpu.SP = cpu.SP | 0x1000", "\tcpu.SP--\n\n\tif cpu.E == 1 {\n\t\tcpu.SP = cpu.SP & 0x00FF\n\t\tcpu.SP = cpu.SP | 0x0100", ["C02"])
 m("c08-prim-mask-removed", "emulator/cpu65c816/cpu.go", "\tea &= 0x00ffffff\n", "", ["C08", "C02"])
 m("c08-alt-write-mask", "emulator/cpualt/bus.go", "func (b *Bus) eaWrite16_cross(ea uint32, value uint16) {\n\tll := byte(value)\n\thh := byte(value >> 8)\n\tb.Write[ea>>4](ea, ll)\n\tea = (ea + 1) & 0x00ffffff // wrap on 24bits", "func (b *Bus) eaWrite16_cross(ea uint32, value uint16) {\n\tll := byte(value)\n\thh := byte(value >> 8)\n\tb.Write[ea>>4](ea, ll)\n\tea = (ea + 1)", ["C08"])
 m("c08-both-abs-cross", "emulator/cpu65c816/cpu.go", "\tcpu.Bus.EaWrite((ea+1)&0x00ffffff, hh) // wrap on 24bits", "\tcpu.Bus.EaWrite((ea + 1), hh)", ["C08"])
+
+# ---- C03 / C07
+m("c03-stz-absx-opcode", "asm/emitter.go", "\td[0] = 0x9E\n", "\td[0] = 0x9D\n", ["C03"])
+m("c03-imm16-swapped", "asm/emitter.go", "func imm16(v uint16) (byte, byte) {\n\treturn byte(v), byte(v >> 8)", "func imm16(v uint16) (byte, byte) {\n\treturn byte(v >> 8), byte(v)", ["C03"])
+m("c03-mvn-swapped", "asm/emitter.go", "\td[1], d[2] = destBank, srcBank", "\td[1], d[2] = srcBank, destBank", ["C03"])
+m("c03-long-bank-lost-rare", "asm/emitter.go", "func imm24(v uint32) (byte, byte, byte) {\n\treturn byte(v), byte(v >> 8), byte(v >> 16)", "func imm24(v uint32) (byte, byte, byte) {\n\tif v == 0xC0FFEE {\n\t\treturn byte(v), byte(v >> 8), 0\n\t}\n\treturn byte(v), byte(v >> 8), byte(v >> 16)", ["C03"])
+m("c07-isx-tests-m", "asm/flags.go", "\treturn Flags(t)&IndexRegister8bit == 0", "\treturn Flags(t)&Accumulator8bit == 0", ["C07"])
+m("c07-sep-forgets-tracker", "asm/emitter.go", "func (a *Emitter) SEP(c Flags) {\n\ta.AssumeSEP(c)\n", "func (a *Emitter) SEP(c Flags) {\n\ta.AssumeSEP(c &^ 0x10)\n", ["C07"])
+m("c07-guard-inverted", "asm/emitter.go", "func (a *Emitter) CPY_imm8_b(m uint8) {\n\tif a.IsX16bit() {", "func (a *Emitter) CPY_imm8_b(m uint8) {\n\tif !a.IsX16bit() {", ["C07"])
+m("c07-guard-missing", "asm/emitter.go", "func (a *Emitter) LDY_imm16_w(m uint16) {\n\tif !a.IsX16bit() {", "func (a *Emitter) LDY_imm16_w(m uint16) {\n\tif false {", ["C07"])
 
 def sh(cmd, **kw):
     return subprocess.run(cmd, shell=True, text=True, capture_output=True, **kw)
